@@ -142,6 +142,49 @@ def handle (op : String) (j : Json) : Except String Json := do
         clausesOf files
       | _ => []
     pure (Json.mkObj [("model", model), ("failed", clauses failed)])
+  | "build.route" =>
+    -- C01/C02/C04: the routing table read back from the implementation's source text
+    -- (IrParse.parseCc) against the table the Dezyne model and the configuration demand
+    let r ← runBuild j
+    let impl := fieldD j "impl" Json.null
+    let ast := ParseOps.jvalOfJson (← field j "ast")
+    let cfgJ ← field j "cfg"
+    let encIds ← strListField cfgJ "encapsulee"
+    let cfgR := (configOf cfgJ).toOption
+    -- the parser is validated on the model's own text: it must give back the model's IR
+    let parserOk : Bool := match r with
+      | .ok b =>
+        let cc := ((b.files.drop 1).headD default).contents
+        let p := IrParse.parseCc cc
+        p.unparsed.isEmpty &&
+        p.ctor.map Spec.eraseA == b.ir.ctorAssigns.map Spec.eraseA &&
+        p.initPort.map (fun (n, as) => (n, as.map Spec.eraseA)) ==
+          b.ir.initPort.map (fun (n, as) => (n, as.map Spec.eraseA))
+      | .error _ => true
+    let model := match r with
+      | .ok b => okJson (Json.mkObj [("files", Json.arr (b.files.map fileJ).toArray)])
+      | .error e => errJson e
+    let failed : List String := if impl.isNull then [] else
+      match Parser.parse ast, cfgR with
+      | .ok fc, some (.ok cfg) =>
+        (match Spec.denoted fc encIds [] with
+        | [enc] =>
+          if !Shell.isComponentOrSystem enc then [] else
+          match Spec.exposedPorts fc enc cfg.ports with
+          | none => []
+          | some xs =>
+            let files := (arrField (fieldD impl "ok" Json.null) "files").toOption.getD []
+            match files[1]? with
+            | some f =>
+              let cc := (strField f "contents").toOption.getD []
+              let pr := IrParse.parseCc cc
+              -- a statement that matches no template: no verdict from the table (the text then differs
+              -- from the model's, which is reported as a broken correspondence)
+              if pr.unparsed.isEmpty then Spec.routingClauses fc xs pr else []
+            | none => []
+        | _ => [])
+      | _, _ => []
+    pure (Json.mkObj [("model", model), ("failed", clauses failed), ("parser_ok", Json.bool parserOk)])
   | "build.trace" =>
     -- model prediction of the traces the compiled program prints for the given scripts
     let r ← runBuild j
